@@ -101,7 +101,8 @@ fn gen_garbage(t: &mut Tape) -> Vec<u8> {
         // a damaged telegram (one flipped bit) that the reference decoder rejects as a whole
         _ => {
             let mut f = gen_valid_frame(t);
-            let bit = t.below(8 * f.len() as u64) as usize;
+            // anywhere, or (a third of the variable-length telegrams) in the first length byte
+            let bit = if f[0] == rc::SD2 && t.chance(1, 3) { 8 + t.below(8) as usize } else { t.below(8 * f.len() as u64) as usize };
             f[bit / 8] ^= 1 << (bit % 8);
             if t.bool() {
                 f.extend(gen_valid_frame(t));
@@ -357,8 +358,12 @@ fn timed_case(t: &mut Tape, obs: &mut Obs) -> CaseResult {
         let mut noise = 0u64;
         let mut got: Vec<RefFrame> = vec![];
         let mut now = Instant::ZERO;
-        for tel in &tels {
-            if jit.below(5) == 0 {
+        // a receiver that is later still: it picks a telegram up only when the first character of
+        // the next one is already on its way (nothing of that one has arrived yet)
+        let mut late_pending = false;
+        let mut late_polls = 0u64;
+        for (ti, tel) in tels.iter().enumerate() {
+            if !late_pending && jit.below(5) == 0 {
                 // line noise while the receiver is not polling: one or two bursts of bytes that start no
                 // telegram (together possibly more than one telegram can be long); a single poll afterwards
                 // discards all of it, and the telegram that follows separately is received
@@ -390,6 +395,17 @@ fn timed_case(t: &mut Tape, obs: &mut Obs) -> CaseResult {
                 (tel.len(), ())
             });
             let end = now + Duration::from_micros(byte_us(tel.len()) + 2);
+            if late_pending {
+                late_pending = false;
+                late_polls += 1;
+                now += Duration::from_micros(1 + jit.below(baud.bits_to_time(10).total_micros().max(1)));
+                ctl.set_bus_time(now);
+                if use_all {
+                    rx.receive_all_telegrams(now, |tel, _| got.push(to_ref(&tel)));
+                } else if let Some(x) = rx.receive_telegram(now, |tel| to_ref(&tel)) {
+                    got.push(x);
+                }
+            }
             let step = byte_us(1 + jit.below(30) as usize);
             // a slow receiver: it does not poll while the telegram arrives; afterwards - the bus is idle -
             // it first makes a transmit call that sends nothing (what the FDL does when it has nothing
@@ -416,7 +432,9 @@ fn timed_case(t: &mut Tape, obs: &mut Obs) -> CaseResult {
                     got.push(x);
                 }
             }
-            if lazy {
+            if lazy && ti + 1 < tels.len() && jit.below(2) == 0 {
+                late_pending = true;
+            } else if lazy {
                 rx.transmit_data(now, |_| (0, ()));
                 noop_tx += 1;
                 if use_all {
@@ -432,6 +450,9 @@ fn timed_case(t: &mut Tape, obs: &mut Obs) -> CaseResult {
         }
         if noise > 0 {
             obs.label("line-noise-before-a-telegram");
+        }
+        if late_polls > 0 {
+            obs.label("telegram-picked-up-while-the-next-one-starts");
         }
     }
     obs.label(if use_all { "receive_all_telegrams" } else { "receive_telegram" });
@@ -452,7 +473,7 @@ pub fn property() -> Property {
         ],
         subchecks: vec![
             SubCheck::tape("chunks", "explicit chunking with a reference reassembler (callbacks, is_last, return value, pending bytes)", chunks_case),
-            SubCheck::tape("timed", "time-driven chunking over SimPhy and over the crate's SimulatorPhy", timed_case),
+            SubCheck::tape("timed", "time-driven chunking over SimPhy and over the crate's SimulatorPhy (receivers that poll all the time, only after the telegram, or only when the first character of the next telegram is already on its way; line noise)", timed_case),
         ],
         plan: |tier| match tier {
             Tier::Quick => vec![
